@@ -823,7 +823,9 @@ FlowCases(u) ==
   { FlowAlias2(k, w) : k \in {3, 4}, w \in Widths } \cup
   { FlowUawMem(w) : w \in Widths } \cup
   { FlowJoinJmp(k) : k \in 1..3 } \cup
-  { FlowLoop(t[1], t[2], t[3]) : t \in { x \in (0..40) \X (0..3) \X {0, 1} : x[1] + x[2] > 0 /\ (Deep \/ x[1] >= 20) } } \cup
+  \* (a x 7 or 4 bytes + b x 3 bytes of x86, b up to 6: every code distance from a few dozen bytes to
+  \* beyond 170 occurs, whatever the exact encodings are)
+  { FlowLoop(t[1], t[2], t[3]) : t \in { x \in (0..40) \X (0..6) \X {0, 1} : x[1] + x[2] > 0 /\ (Deep \/ (x[1] >= 8 /\ x[1] <= 24)) } } \cup
   { FlowLoopDiv(o) : o \in {63, 60, 159, 156} } \cup
   { FlowDead(k) : k \in {1, 2} } \cup
   { FlowJoin(oi, t) : oi \in 1..Len(JoinOps), t \in {0, 1} } \cup
